@@ -1,4 +1,4 @@
-import AnyDB.Lemmas.LayoutCreate
+import AnyDB.Lemmas.LayoutAcc
 
 /-!
 # C02 — extents never overlap, for EVERY history (whole-state invariant of the rawdb model)
@@ -20,10 +20,15 @@ slots.  Every operation of the model preserves it from ANY state that satisfies 
 `C02_history_partial`: after EVERY sequence of operations from the empty database in which no operation panics and
 that contains no `reopen`: no byte in two extents, all extents positive, everything claimed ends at or before
 `Layout::len()`, two different live regions never share a byte.
+`C02_history_accounted` adds the accounting half: `Acc` (`Lemmas/LayoutAcc.lean`: the claimed bytes form an initial
+segment) is preserved too — every operation either leaves the number of extents covering each byte alone (a region
+becomes a pending hole, pending holes are promoted and merged, a hole's front becomes a region or a reservation, a
+reservation becomes the region) or adds one extent exactly on top of everything claimed (`acc_of_top`: creation or
+relocation at `Layout::len()`, the last region growing in place) — so after every such history EVERY byte below
+`Layout::len()` belongs to EXACTLY one region, reservation, free extent or pending free extent.
 What is missing for the full statement: `reopen` (`Layout::from` over the metadata file — needs the invariant that
-the metadata file agrees with the slots), and the accounting half of C02 ("every byte below `Layout::len()` belongs to
-exactly one extent" — only "at most one" is proved here; the harness's extent checker tests "exactly one" on the real
-crate after every request).
+the metadata file agrees with the slots), page alignment and "inside the data file" as whole-history invariants
+(checked by the harness's extent checker on the real crate after every request).
 -/
 namespace AnyDB.C02r
 open AnyDB Conc Db
@@ -85,6 +90,54 @@ theorem C02_history_partial (ops : List Op) (hr : NoReopen ops) (hp : NoPanic Db
   unfold claimedDb at h1
   simp only [cnt_append] at h1
   omega
+
+
+theorem acc_step (s : Db) (op : Op) (h : LInv s) (ha : Acc s) (hop : ∀ n, op ≠ .reopen n) :
+    IsPanic (step s op).2 ∨ Acc (step s op).1 := by
+  cases op with
+  | create id => exact acc_create s id h ha
+  | write id d => simp only [step, Db.withRegion]; split; right; exact ha; exact acc_writeWith s h ha _ d none false
+  | writeAt id a d => simp only [step, Db.withRegion]; split; right; exact ha; exact acc_writeWith s h ha _ d (some a) false
+  | truncate id n => simp only [step, Db.withRegion]; split; right; exact ha; right; exact (same_truncate s _ n).acc ha
+  | truncateWrite id a d => simp only [step, Db.withRegion]; split; right; exact ha; exact acc_writeWith s h ha _ d (some a) true
+  | rename id n => simp only [step, Db.withRegion]; split; right; exact ha; right; exact (same_rename s _ n).acc ha
+  | remove id => right; exact acc_removeId s id false h ha
+  | removeHeld id => right; exact acc_removeId s id true h ha
+  | retain ids => right; exact acc_retain s ids h ha
+  | flush => right; exact acc_flush s h ha
+  | regionFlush id => simp only [step, Db.withRegion]; split; right; exact ha; right; exact (same_regionFlush s _).acc ha
+  | compact => right; exact acc_compact s h ha
+  | reopen n => exact absurd rfl (hop n)
+  | setMinLen n => right; exact (same_setMinLen s n).acc ha
+  | setMinRegions n => right; exact (same_setMinRegions s n).acc ha
+
+theorem acc_run (s : Db) (ops : List Op) (h : LInv s) (ha : Acc s) (hr : NoReopen ops) (hp : NoPanic s ops) : Acc (run s ops) := by
+  induction ops generalizing s with
+  | nil => exact ha
+  | cons op t ih =>
+    have hno := hr op (List.mem_cons_self ..)
+    have hstep := linv_step s op h hno
+    have hacc := acc_step s op h ha hno
+    have : run s (op :: t) = run (step s op).1 t := rfl
+    rw [this]
+    rcases hstep with hpn | hl
+    · exact absurd hpn hp.1
+    · rcases hacc with hpn | hac
+      · exact absurd hpn hp.1
+      · exact ih _ hl hac (fun o ho => hr o (List.mem_cons_of_mem _ ho)) hp.2
+
+/-- C02, accounting half (partial: no `reopen`, no panicking operation), for every history:
+every byte below the end of the allocated area belongs to exactly one extent -/
+theorem C02_history_accounted (ops : List Op) (hr : NoReopen ops) (hp : NoPanic Db.init ops) :
+    ∀ x, x < (run Db.init ops).layoutLen → cnt (claimedDb (run Db.init ops)) x = 1 := by
+  have h := linv_run Db.init ops linv_init hr hp
+  have ha := acc_run Db.init ops linv_init acc_init hr hp
+  intro x hx
+  have h1 := h.one x
+  rcases layoutLen_attained _ h with h0 | hl
+  · omega
+  · have := ha x ((run Db.init ops).layoutLen - 1) (by omega) hl
+    omega
 
 -- non-vacuity: a history with creation, removal, flush and reuse of the freed extent
 example : NoReopen [Op.create [97], .create [98], .remove [98], .flush, .create [99]] ∧
